@@ -321,18 +321,46 @@ fn run_channel(lines: &[String], sched: Schedule, seed: u32) -> Result<RunOut, S
             }
         }
     }
-    // watchdog: the final stop must end the run
+    // The final stop must end the run. Wall-clock alone never decides: if the loop has not returned after
+    // a while, a probe is sent behind the stop (resume + flag write). The guest's echo of the probe proves
+    // that the loop is alive and has consumed every earlier line - including the stop - without stopping:
+    // only then is the stop counted as lost. A loop that is merely slow ends by itself (no violation); a
+    // loop that neither ends nor echoes is a hang (exit 2).
     let mut first_stop_ignored = false;
+    let mut early: Vec<String> = vec![];
     if done_rx.recv_timeout(Duration::from_millis(700)).is_err() {
-        first_stop_ignored = true;
-        let _ = in_tx.send("cmd:stop".into());
-        if done_rx.recv_timeout(Duration::from_secs(30)).is_err() {
-            eprintln!("C18: run loop did not stop within 30 s (hang)");
-            std::process::exit(2);
+        let _ = in_tx.send("cmd:start".into());
+        let _ = in_tx.send(format!("u8:{:x}:a7", FLAG));
+        let t0 = Instant::now();
+        loop {
+            if done_rx.recv_timeout(Duration::from_millis(5)).is_ok() {
+                break;
+            }
+            let mut echoed = false;
+            for m in out_rx.try_iter() {
+                if m.starts_with("ioport:b:a7:") {
+                    echoed = true;
+                }
+                early.push(m);
+            }
+            if echoed {
+                first_stop_ignored = true;
+                let _ = in_tx.send("cmd:stop".into());
+                if done_rx.recv_timeout(Duration::from_secs(60)).is_err() {
+                    eprintln!("C18: run loop did not stop after a second cmd:stop (hang)");
+                    std::process::exit(2);
+                }
+                break;
+            }
+            if t0.elapsed() > Duration::from_secs(120) {
+                eprintln!("C18: run loop neither stopped nor echoed a probe within 120 s (hang or overloaded host): inconclusive");
+                std::process::exit(2);
+            }
         }
     }
     let state = handle.join().map_err(|_| "emulator thread panicked".to_string())??;
-    let msgs: Vec<String> = out_rx.try_iter().collect();
+    early.extend(out_rx.try_iter());
+    let msgs: Vec<String> = early;
     Ok(RunOut { state, msgs, first_stop_ignored })
 }
 
@@ -593,24 +621,35 @@ fn judge_tcp_lines(lines: &[String], chunk_seed: u32) -> Result<(), String> {
             std::thread::sleep(Duration::from_micros(50));
         }
     }
-    // drain outgoing until the emulator closes; a stop that is not acted on is repeated in a batch of its own
+    // drain outgoing until the emulator closes. As in the channel driver, a probe behind the stop decides
+    // whether a stop was lost (echo seen) or the emulator is just slow (connection closes by itself).
     let _ = stream.set_read_timeout(Some(Duration::from_millis(100)));
     let mut buf = [0u8; 4096];
     let sent = Instant::now();
+    let mut probed = false;
     let mut stop_ignored = false;
+    let mut seen: Vec<u8> = vec![];
     loop {
         match stream.read(&mut buf) {
             Ok(0) => break,
-            Ok(_) => {}
+            Ok(n) => seen.extend_from_slice(&buf[..n]),
             Err(ref e) if e.kind() == std::io::ErrorKind::WouldBlock || e.kind() == std::io::ErrorKind::TimedOut => {}
             Err(_) => break,
         }
-        if !stop_ignored && sent.elapsed() > Duration::from_millis(1200) {
+        if !probed && sent.elapsed() > Duration::from_millis(1200) {
+            probed = true;
+            let _ = stream.write_all(format!("cmd:start\nu8:{:x}:a7\n", FLAG).as_bytes());
+        }
+        if probed && !stop_ignored && seen.windows(12).any(|w| w == b"ioport:b:a7:") {
             stop_ignored = true;
             let _ = stream.write_all(b"cmd:stop\n");
         }
-        if sent.elapsed() > Duration::from_secs(40) {
-            eprintln!("C18: emulator did not stop within 40 s over TCP (hang)");
+        if seen.len() > (1 << 20) {
+            let keep = seen.split_off(seen.len() - 64);
+            seen = keep;
+        }
+        if sent.elapsed() > Duration::from_secs(120) {
+            eprintln!("C18: emulator neither stopped nor echoed a probe within 120 s over TCP: inconclusive");
             std::process::exit(2);
         }
     }
